@@ -110,15 +110,20 @@ type Obligation struct {
 // ---------------------------------------------------------------------------
 // Run: one verification run of one function (with inlined callees)
 
-type execErr struct{ msg string }
+type execErr struct {
+	msg   string
+	ident string // unknown identifier of a contract clause, if that is what failed
+}
 
 func (e execErr) Error() string { return e.msg }
 
 func unsupported(f string, a ...interface{}) {
-	panic(execErr{fmt.Sprintf(f, a...)})
+	panic(execErr{msg: fmt.Sprintf(f, a...)})
 }
 
 type Run struct {
+	// names used by the contract for locals / parameters that the source now calls differently (see rebind.go)
+	localAlias map[string]string
 	eng                         *Engine
 	top                         *ssa.Function
 	contract                    *FuncContract
